@@ -1,6 +1,9 @@
 package schema
 
-import "regexp"
+import (
+	"fmt"
+	"regexp"
+)
 
 var unitsProperty = NewPropertySchema(
 	NewRefSchema("Units", nil),
@@ -1329,24 +1332,36 @@ func DescribeSchema() *ScopeSchema {
 }
 
 // UnserializeScope unserializes a scope definition from raw data.
-func UnserializeScope(data any) (*ScopeSchema, error) {
+func UnserializeScope(data any) (result *ScopeSchema, err error) {
+	defer recoverInvalidDescription(&err)
 	s, err := scopeScopeSchema.Unserialize(data)
 	if err != nil {
 		return nil, err
 	}
-	result := s.(*ScopeSchema)
+	scope := s.(*ScopeSchema)
 	// Link the references of the scope's own namespace, as NewScopeSchema and UnserializeSchema do.
-	result.ApplySelf()
-	return result, nil
+	scope.ApplySelf()
+	return scope, nil
 }
 
 // UnserializeSchema unserializes an entire schema definition from raw data.
-func UnserializeSchema(data any) (*SchemaSchema, error) {
+func UnserializeSchema(data any) (result *SchemaSchema, err error) {
+	defer recoverInvalidDescription(&err)
 	s, err := schemaSchema.Unserialize(data)
 	if err != nil {
 		return nil, err
 	}
-	result := s.(*SchemaSchema)
-	result.applyNamespace()
-	return result, nil
+	schema := s.(*SchemaSchema)
+	schema.applyNamespace()
+	return schema, nil
+}
+
+// recoverInvalidDescription is deferred by the functions that build a schema from a description received from outside.
+// Linking panics on a description that is well-formed but not consistent (a reference to an object its scope does not
+// define, a one-of whose members contradict its inlining flag). For code that constructs schemas that is a programming
+// error; for a received description it is invalid input and is reported as an error (the result stays nil).
+func recoverInvalidDescription(err *error) {
+	if r := recover(); r != nil {
+		*err = &ConstraintError{Message: fmt.Sprintf("invalid schema description: %v", r)}
+	}
 }
